@@ -30,6 +30,7 @@ def pParent (s : String) : Option Parent :=
   | ["L", cs] => some (.list (pCols cs))
   | ["T", cs] => some (.listS (pCols cs))
   | ["S", c] => some (.scalar c)
+  | ["U", c] => some (.scalarS c)
   | _ => none
 
 def pDep (s : String) : Option Dep :=
